@@ -1,6 +1,8 @@
 //@unit ma_laws2
 //@include head.rs
+//@include sorted_lib.rs
 //@include select_lib.rs
+use std::cmp::Ordering;
 //@import ohlcv.rs.tpl
 //@import indicator_base.rs.tpl
 //@include indicator_traits.rs
@@ -8,7 +10,9 @@
 //@import wma.rs.tpl
 //@import compose_ma.rs.tpl
 //@import ema.rs.tpl
+//@import smm.rs.tpl
 //@import swma.rs.tpl
+//@import derived_window.rs.tpl
 //@import lin_reg.rs.tpl
 //@import conv.rs.tpl
 //@import vwma.rs.tpl
@@ -387,6 +391,460 @@ pub proof fn hma_affine_rel(p1: &HMA, x1: R, q1: &HMA, o1: R, p2: &HMA, x2: R, q
 	assert(2real * (a * u1@ + b) - (a * u2@ + b) == a * (2real * u1@ - u2@) + b) by(nonlinear_arith);
 	lemma_img_slide(p2.wma3.window.view(), p1.wma3.window.view(), d2, d1, a, b);
 	wma_affine_img(q2.wma3.window.view(), q1.wma3.window.view(), a, b);
+}
+
+// ---------------------------------------------------------------- SMM: the median commutes with affine maps (a < 0 reverses the order, the middle stays the middle)
+pub open spec fn rev(u: Seq<R>) -> Seq<R> { Seq::new(u.len(), |i: int| u[u.len() - 1 - i]) }
+pub proof fn lemma_cnt_rev(u: Seq<R>, x: real)
+	ensures cnt(rev(u), x) == cnt(u, x)
+	decreases u.len()
+{
+	if u.len() > 0 {
+		let d = u.drop_last();
+		lemma_cnt_rev(d, x);
+		assert(rev(u) =~= seq![u.last()] + rev(d));
+		lemma_cnt_concat(seq![u.last()], rev(d), x);
+		lemma_cnt_single(u.last(), x);
+	}
+}
+pub proof fn lemma_cnt_cong(s: Seq<R>, t: Seq<R>, x: real)
+	requires veq(s, t)
+	ensures cnt(s, x) == cnt(t, x)
+	decreases s.len()
+{
+	if s.len() > 0 { lemma_cnt_cong(s.drop_last(), t.drop_last(), x); }
+}
+// an injective affine map moves the counts along
+pub proof fn lemma_cnt_affine(s: Seq<R>, a: real, b: real, x: real)
+	requires a != 0real
+	ensures cnt(affine(s, a, b), a * x + b) == cnt(s, x)
+	decreases s.len()
+{
+	if s.len() > 0 {
+		lemma_cnt_affine(s.drop_last(), a, b, x);
+		assert(affine(s, a, b).drop_last() =~= affine(s.drop_last(), a, b));
+		let v = s.last()@;
+		assert((a * v + b == a * x + b) == (v == x)) by(nonlinear_arith) requires a != 0real;
+	}
+}
+pub proof fn lemma_cnt_flat(s: Seq<R>, b: real, y: real)
+	requires forall|i: int| 0 <= i < s.len() ==> (#[trigger] s[i])@ == b
+	ensures cnt(s, y) == (if y == b { s.len() } else { 0nat })
+	decreases s.len()
+{
+	if s.len() > 0 { lemma_cnt_flat(s.drop_last(), b, y); }
+}
+pub proof fn lemma_perm_affine(s: Seq<R>, t: Seq<R>, a: real, b: real)
+	requires perm(s, t)
+	ensures perm(affine(s, a, b), affine(t, a, b))
+{
+	let (s2, t2) = (affine(s, a, b), affine(t, a, b));
+	assert forall|y: real| cnt(s2, y) == cnt(t2, y) by {
+		if a != 0real {
+			let x = (y - b) / a;
+			assert(a * x + b == y) by(nonlinear_arith) requires x == (y - b) / a, a != 0real;
+			lemma_cnt_affine(s, a, b, x);
+			lemma_cnt_affine(t, a, b, x);
+		} else {
+			assert forall|i: int| 0 <= i < s2.len() implies (#[trigger] s2[i])@ == b by { assert(0real * s[i]@ == 0real) by(nonlinear_arith); }
+			assert forall|i: int| 0 <= i < t2.len() implies (#[trigger] t2[i])@ == b by { assert(0real * t[i]@ == 0real) by(nonlinear_arith); }
+			lemma_cnt_flat(s2, b, y);
+			lemma_cnt_flat(t2, b, y);
+		}
+	}
+}
+pub proof fn median_affine(view: Seq<R>, w: Seq<R>, m: real, a: real, b: real)
+	requires view.len() >= 1, img_of(w, view, a, b), is_median(view, m)
+	ensures is_median(w, a * m + b)
+{
+	let n = view.len() as int;
+	let s = choose|s: Seq<R>| sorted(s) && #[trigger] perm(s, view) && m == (s[n / 2]@ + s[if n % 2 == 0 { n / 2 - 1 } else { n / 2 }]@) / 2real;
+	let k = if n % 2 == 0 { n / 2 - 1 } else { n / 2 };
+	let im = affine(s, a, b);
+	lemma_perm_affine(s, view, a, b);
+	// counts of w are those of affine(view)
+	assert forall|y: real| cnt(affine(view, a, b), y) == cnt(w, y) by { lemma_cnt_cong(w, affine(view, a, b), y); }
+	let (p, q) = (s[n / 2]@, s[k]@);
+	assert(((a * p + b) + (a * q + b)) / 2real == a * ((p + q) / 2real) + b) by(nonlinear_arith);
+	if a >= 0real {
+		assert forall|i: int, j: int| 0 <= i < j < im.len() implies im[i]@ <= im[j]@ by {
+			assert(a * s[i]@ <= a * s[j]@) by(nonlinear_arith) requires a >= 0real, s[i]@ <= s[j]@;
+		}
+		assert(sorted(im) && perm(im, w));
+		assert(im[n / 2]@ == a * p + b && im[k]@ == a * q + b);
+	} else {
+		let r = rev(im);
+		assert forall|i: int, j: int| 0 <= i < j < r.len() implies r[i]@ <= r[j]@ by {
+			let (i2, j2) = (n - 1 - i, n - 1 - j);
+			assert(s[j2]@ <= s[i2]@);
+			assert(a * s[i2]@ <= a * s[j2]@) by(nonlinear_arith) requires a < 0real, s[j2]@ <= s[i2]@;
+		}
+		assert forall|y: real| cnt(r, y) == cnt(w, y) by { lemma_cnt_rev(im, y); }
+		assert(sorted(r) && perm(r, w));
+		// the two middle positions swap (even length) or stay (odd length)
+		if n % 2 == 0 {
+			assert(n - 1 - n / 2 == n / 2 - 1 && n - 1 - (n / 2 - 1) == n / 2);
+			assert(r[n / 2]@ == a * q + b && r[k]@ == a * p + b);
+		} else {
+			assert(n - 1 - n / 2 == n / 2);
+			assert(r[n / 2]@ == a * p + b && r[k]@ == a * p + b);
+		}
+	}
+}
+pub proof fn smm_affine_rel(p1: &SMM, x1: R, q1: &SMM, o1: R, p2: &SMM, x2: R, q2: &SMM, o2: R, a: real, b: real)
+	requires p1.inv(), p2.inv(), img_of(p2.window.view(), p1.window.view(), a, b), x2@ == a * x1@ + b, SMM::step(p1, &x1, q1, &o1), SMM::step(p2, &x2, q2, &o2)
+	ensures img_of(q2.window.view(), q1.window.view(), a, b), is_median(q2.window.view(), a * o1@ + b)
+{
+	lemma_img_slide(p2.window.view(), p1.window.view(), x2, x1, a, b);
+	median_affine(q1.window.view(), q2.window.view(), o1@, a, b);
+}
+
+// ---------------------------------------------------------------- Vidya: the adaptive factor |CMO| is scale- and shift-free, so the recurrence is affine-equivariant
+pub open spec fn scaled(w: Seq<R>, v: Seq<R>, a: real) -> bool { w.len() == v.len() && forall|i: int| 0 <= i < v.len() ==> (#[trigger] w[i])@ == a * v[i]@ }
+// sums of the positive / negative parts under scaling: kept for a > 0, swapped for a < 0
+pub proof fn lemma_updn_scaled(w: Seq<R>, v: Seq<R>, a: real)
+	requires scaled(w, v, a)
+	ensures
+		a >= 0real ==> fsum(w, pos_fn()) == a * fsum(v, pos_fn()) && fsum(w, neg_fn()) == a * fsum(v, neg_fn()),
+		a < 0real ==> fsum(w, pos_fn()) == (-a) * fsum(v, neg_fn()) && fsum(w, neg_fn()) == (-a) * fsum(v, pos_fn()),
+	decreases v.len()
+{
+	if v.len() == 0 {
+		assert(a * 0real == 0real && (-a) * 0real == 0real) by(nonlinear_arith);
+	} else {
+		lemma_updn_scaled(w.drop_last(), v.drop_last(), a);
+		let (c, d) = (v.last()@, w.last()@);
+		assert(d == a * c);
+		let (pc, nc) = (rmax(c, 0real), rmax(-c, 0real));
+		assert(pos_fn()(v.last()) == pc && neg_fn()(v.last()) == nc && pos_fn()(w.last()) == rmax(d, 0real) && neg_fn()(w.last()) == rmax(-d, 0real));
+		let (up, dn) = (fsum(v.drop_last(), pos_fn()), fsum(v.drop_last(), neg_fn()));
+		if a >= 0real {
+			assert(rmax(a * c, 0real) == a * pc && rmax(-(a * c), 0real) == a * nc) by(nonlinear_arith) requires a >= 0real, pc == rmax(c, 0real), nc == rmax(-c, 0real);
+			assert(a * up + a * pc == a * (up + pc) && a * dn + a * nc == a * (dn + nc)) by(nonlinear_arith);
+		} else {
+			let m = -a;
+			assert(rmax(a * c, 0real) == m * nc && rmax(-(a * c), 0real) == m * pc) by(nonlinear_arith) requires a < 0real, m == -a, pc == rmax(c, 0real), nc == rmax(-c, 0real);
+			assert(m * dn + m * nc == m * (dn + nc) && m * up + m * pc == m * (up + pc)) by(nonlinear_arith);
+		}
+	}
+}
+pub open spec fn vidya_rel(p1: &Vidya, p2: &Vidya, a: real, b: real) -> bool {
+	&&& p2.f@ == p1.f@ && scaled(p2.window.view(), p1.window.view(), a)
+	&&& p2.last_input@ == a * p1.last_input@ + b && p2.last_output@ == a * p1.last_output@ + b
+}
+pub proof fn vidya_affine_rel(p1: &Vidya, x1: R, q1: &Vidya, o1: R, p2: &Vidya, x2: R, q2: &Vidya, o2: R, a: real, b: real)
+	requires p1.inv(), p2.inv(), vidya_rel(p1, p2, a, b), x2@ == a * x1@ + b, Vidya::step(p1, &x1, q1, &o1), Vidya::step(p2, &x2, q2, &o2)
+	ensures o2@ == a * o1@ + b, vidya_rel(q1, q2, a, b)
+{
+	let (v1, v2) = (q1.window.view(), q2.window.view());
+	// the newest change scales by a (the shift cancels), the older ones were related before
+	assert(v2.last()@ == a * v1.last()@) by {
+		let (x, l) = (x1@, p1.last_input@);
+		assert((a * x + b) - (a * l + b) == a * (x - l)) by(nonlinear_arith);
+	}
+	assert forall|i: int| 0 <= i < v1.len() implies (#[trigger] v2[i])@ == a * v1[i]@ by {
+		if i < v1.len() - 1 {
+			assert(v2[i] == v2.drop_last()[i] && v1[i] == v1.drop_last()[i]);
+			assert(v2.drop_last()[i] == p2.window.view().drop_first()[i] && v1.drop_last()[i] == p1.window.view().drop_first()[i]);
+		}
+	}
+	lemma_updn_scaled(v2, v1, a);
+	let (u1, d1, u2, d2) = (fsum(v1, pos_fn()), fsum(v1, neg_fn()), fsum(v2, pos_fn()), fsum(v2, neg_fn()));
+	let (x, lo) = (x1@, p1.last_output@);
+	if a == 0real {
+		assert(u2 == 0real && d2 == 0real) by(nonlinear_arith) requires u2 == a * u1, d2 == a * d1, a == 0real;
+		assert(a * o1@ == 0real && a * x == 0real) by(nonlinear_arith) requires a == 0real;
+	} else {
+		let m = rabs(a);
+		let (s1, s2) = (u1 + d1, u2 + d2);
+		assert(s2 == m * s1) by(nonlinear_arith) requires s1 == u1 + d1, s2 == u2 + d2, m == rabs(a), (a >= 0real ==> u2 == a * u1 && d2 == a * d1), (a < 0real ==> u2 == (-a) * d1 && d2 == (-a) * u1);
+		assert((s2 == 0real) == (s1 == 0real)) by(nonlinear_arith) requires s2 == m * s1, m > 0real;
+		if s1 != 0real {
+			let (t1, t2) = (u1 - d1, u2 - d2);
+			assert(t2 == a * t1) by(nonlinear_arith) requires t1 == u1 - d1, t2 == u2 - d2, (a >= 0real ==> u2 == a * u1 && d2 == a * d1), (a < 0real ==> u2 == (-a) * d1 && d2 == (-a) * u1);
+			// the quotient changes at most its sign
+			let (q1r, q2r) = (t1 / s1, t2 / s2);
+			assert(q2r == (if a > 0real { q1r } else { -q1r })) by(nonlinear_arith)
+				requires q1r == t1 / s1, q2r == t2 / s2, t2 == a * t1, s2 == m * s1, m == rabs(a), a != 0real, s1 != 0real;
+			assert(rabs(q2r) == rabs(q1r));
+			let k = p1.f@ * rabs(q1r);
+			assert((a * x + b) * k + (1real - k) * (a * lo + b) == a * (x * k + (1real - k) * lo) + b) by {
+				let u = 1real - k;
+				assert((a * x + b) * k == a * (x * k) + b * k) by(nonlinear_arith);
+				assert(u * (a * lo + b) == a * (u * lo) + b * u) by(nonlinear_arith);
+				assert(b * k + b * u == b) by(nonlinear_arith) requires u == 1real - k;
+				assert(a * (x * k) + a * (u * lo) == a * (x * k + u * lo)) by(nonlinear_arith);
+			}
+		}
+	}
+}
+
+// ==================================================================== superposition for the linear kinds (same metamorphic form: three instances,
+// the third holding the sums of what the first two hold, stepped on x, y and x+y)
+pub open spec fn sum_of(w: Seq<R>, u: Seq<R>, v: Seq<R>) -> bool { u.len() == v.len() && veq(w, plus(u, v)) }
+pub proof fn lemma_sum_of_slide(w: Seq<R>, u: Seq<R>, v: Seq<R>, z: R, x: R, y: R)
+	requires sum_of(w, u, v), u.len() >= 1, z@ == x@ + y@
+	ensures sum_of(w.drop_first().push(z), u.drop_first().push(x), v.drop_first().push(y))
+{
+	let (w2, u2, v2) = (w.drop_first().push(z), u.drop_first().push(x), v.drop_first().push(y));
+	let pl = plus(u2, v2);
+	assert forall|i: int| 0 <= i < w2.len() implies (#[trigger] w2[i])@ == pl[i]@ by {
+		if i < w2.len() - 1 { assert(w2[i] == w[i + 1] && u2[i] == u[i + 1] && v2[i] == v[i + 1]); assert(w[i + 1]@ == plus(u, v)[i + 1]@); }
+	}
+}
+pub proof fn lemma_dsum_plus(s: Seq<R>, t: Seq<R>)
+	requires s.len() == t.len()
+	ensures dsum(plus(s, t)) == dsum(s) + dsum(t)
+	decreases s.len()
+{
+	if s.len() > 0 {
+		lemma_dsum_plus(s.drop_first(), t.drop_first());
+		assert(plus(s, t).drop_first() =~= plus(s.drop_first(), t.drop_first()));
+		let (n, x, y) = (s.len() as real, s[0]@, t[0]@);
+		assert(n * (x + y) == n * x + n * y) by(nonlinear_arith);
+	}
+}
+pub proof fn lemma_asum_plus(s: Seq<R>, t: Seq<R>)
+	requires s.len() == t.len()
+	ensures asum(plus(s, t)) == asum(s) + asum(t)
+	decreases s.len()
+{
+	if s.len() > 0 {
+		lemma_asum_plus(s.drop_last(), t.drop_last());
+		lemma_sum_plus(s.drop_last(), t.drop_last());
+		assert(plus(s, t).drop_last() =~= plus(s.drop_last(), t.drop_last()));
+	}
+}
+pub proof fn sma_plus_img(w: Seq<R>, u: Seq<R>, v: Seq<R>)
+	requires u.len() >= 1, sum_of(w, u, v)
+	ensures SMA::def(w) == SMA::def(u) + SMA::def(v)
+{
+	lemma_sum_cong(w, plus(u, v));
+	sma_superposition(u, v);
+}
+pub proof fn wma_plus_img(w: Seq<R>, u: Seq<R>, v: Seq<R>)
+	requires u.len() >= 1, sum_of(w, u, v)
+	ensures WMA::def(w) == WMA::def(u) + WMA::def(v)
+{
+	lemma_wsum_cong(w, plus(u, v));
+	wma_superposition(u, v);
+}
+pub proof fn swma_plus_img(l3: Seq<R>, r3: Seq<R>, l1: Seq<R>, r1: Seq<R>, l2: Seq<R>, r2: Seq<R>)
+	requires l1.len() >= 1, sum_of(l3, l1, l2), sum_of(r3, r1, r2)
+	ensures SWMA::def(l3, r3) == SWMA::def(l1, r1) + SWMA::def(l2, r2)
+{
+	lemma_wsum_cong(l3, plus(l1, l2)); lemma_dsum_cong(r3, plus(r1, r2));
+	lemma_wsum_plus(l1, l2); lemma_dsum_plus(r1, r2);
+	lemma_tri(l1.len() as int); lemma_tri(r1.len() as int);
+	let t = (tri(l1.len() as int) + tri(r1.len() as int)) as real;
+	let (p, q) = (wsum(l1) + dsum(r1), wsum(l2) + dsum(r2));
+	assert((p + q) / t == p / t + q / t) by(nonlinear_arith) requires t >= 1real;
+}
+pub proof fn linreg_plus_img(w: Seq<R>, u: Seq<R>, v: Seq<R>)
+	requires u.len() >= 2, sum_of(w, u, v)
+	ensures LinReg::def(w) == LinReg::def(u) + LinReg::def(v)
+{
+	let pl = plus(u, v);
+	lemma_sum_cong(w, pl); lemma_asum_cong(w, pl);
+	lemma_sum_plus(u, v); lemma_asum_plus(u, v);
+	let n = u.len() as int;
+	lemma_linreg_ints(n);
+	let (nr, t, d) = (n as real, tri(n - 1) as real, LinReg::det(n));
+	let (s1, p1, s2, p2) = (sum(u), asum(u), sum(v), asum(v));
+	let (n1, n2) = (nr * p1 - t * s1, nr * p2 - t * s2);
+	assert(nr * (p1 + p2) - t * (s1 + s2) == n1 + n2) by(nonlinear_arith) requires n1 == nr * p1 - t * s1, n2 == nr * p2 - t * s2;
+	assert((n1 + n2) / d == n1 / d + n2 / d) by(nonlinear_arith) requires d >= 1real;
+	let (k1, k2) = (n1 / d, n2 / d);
+	assert(LinReg::slope(w) == k1 + k2);
+	let (m1, m2) = (s1 - k1 * t, s2 - k2 * t);
+	assert((s1 + s2) - (k1 + k2) * t == m1 + m2) by(nonlinear_arith) requires m1 == s1 - k1 * t, m2 == s2 - k2 * t;
+	assert((m1 + m2) / nr == m1 / nr + m2 / nr) by(nonlinear_arith) requires nr >= 2real;
+}
+pub proof fn lemma_csum_plus(w: Seq<R>, u: Seq<R>, v: Seq<R>, ws: Seq<R>, m: int)
+	requires sum_of(w, u, v), ws.len() == u.len(), 0 <= m <= u.len()
+	ensures csum_from(w, ws, m) == csum_from(u, ws, m) + csum_from(v, ws, m)
+	decreases u.len() - m
+{
+	if m < u.len() {
+		lemma_csum_plus(w, u, v, ws, m + 1);
+		assert(w[m]@ == plus(u, v)[m]@);
+		let (x, y, k) = (u[m]@, v[m]@, ws[m]@);
+		assert((x + y) * k == x * k + y * k) by(nonlinear_arith);
+	}
+}
+pub proof fn conv_plus_img(w: Seq<R>, u: Seq<R>, v: Seq<R>, ws: Seq<R>)
+	requires sum_of(w, u, v), ws.len() == u.len(), sum(ws) != 0real
+	ensures Conv::def(w, ws) == Conv::def(u, ws) + Conv::def(v, ws)
+{
+	lemma_csum_plus(w, u, v, ws, 0);
+	let (p, q, s) = (csum_from(u, ws, 0), csum_from(v, ws, 0), sum(ws));
+	assert((p + q) / s == p / s + q / s) by(nonlinear_arith) requires s != 0real;
+}
+pub open spec fn ema_sum(p1: &EMA, p2: &EMA, p3: &EMA) -> bool { p2.alpha@ == p1.alpha@ && p3.alpha@ == p1.alpha@ && p3.value@ == p1.value@ + p2.value@ }
+pub proof fn ema_plus_rel(p1: &EMA, x1: R, q1: &EMA, o1: R, p2: &EMA, x2: R, q2: &EMA, o2: R, p3: &EMA, x3: R, q3: &EMA, o3: R)
+	requires ema_sum(p1, p2, p3), x3@ == x1@ + x2@, EMA::step(p1, &x1, q1, &o1), EMA::step(p2, &x2, q2, &o2), EMA::step(p3, &x3, q3, &o3)
+	ensures o3@ == o1@ + o2@, ema_sum(q1, q2, q3)
+{
+	let (al, v1, v2, a, b) = (p1.alpha@, p1.value@, p2.value@, x1@, x2@);
+	assert((v1 + al * (a - v1)) + (v2 + al * (b - v2)) == (v1 + v2) + al * ((a + b) - (v1 + v2))) by(nonlinear_arith);
+}
+pub proof fn rma_plus_rel(p1: &RMA, x1: R, q1: &RMA, o1: R, p2: &RMA, x2: R, q2: &RMA, o2: R, p3: &RMA, x3: R, q3: &RMA, o3: R)
+	requires p2.alpha@ == p1.alpha@, p3.alpha@ == p1.alpha@, p3.prev_value@ == p1.prev_value@ + p2.prev_value@, x3@ == x1@ + x2@,
+		RMA::step(p1, &x1, q1, &o1), RMA::step(p2, &x2, q2, &o2), RMA::step(p3, &x3, q3, &o3)
+	ensures o3@ == o1@ + o2@, q3.prev_value@ == q1.prev_value@ + q2.prev_value@, q2.alpha@ == q1.alpha@, q3.alpha@ == q1.alpha@
+{
+	let (al, v1, v2, a, b) = (p1.alpha@, p1.prev_value@, p2.prev_value@, x1@, x2@);
+	let u = 1real - al;
+	assert(al * (a + b) == al * a + al * b) by(nonlinear_arith);
+	assert(u * (v1 + v2) == u * v1 + u * v2) by(nonlinear_arith);
+}
+pub open spec fn dma_sum(p1: &DMA, p2: &DMA, p3: &DMA) -> bool { ema_sum(&p1.ema, &p2.ema, &p3.ema) && ema_sum(&p1.dma, &p2.dma, &p3.dma) }
+pub proof fn dma_plus_rel(p1: &DMA, x1: R, q1: &DMA, o1: R, p2: &DMA, x2: R, q2: &DMA, o2: R, p3: &DMA, x3: R, q3: &DMA, o3: R)
+	requires dma_sum(p1, p2, p3), x3@ == x1@ + x2@, DMA::step(p1, &x1, q1, &o1), DMA::step(p2, &x2, q2, &o2), DMA::step(p3, &x3, q3, &o3)
+	ensures o3@ == o1@ + o2@, dma_sum(q1, q2, q3)
+{
+	ema_plus_rel(&p1.ema, x1, &q1.ema, q1.ema.value, &p2.ema, x2, &q2.ema, q2.ema.value, &p3.ema, x3, &q3.ema, q3.ema.value);
+	ema_plus_rel(&p1.dma, q1.ema.value, &q1.dma, o1, &p2.dma, q2.ema.value, &q2.dma, o2, &p3.dma, q3.ema.value, &q3.dma, o3);
+}
+pub proof fn tma_plus_rel(p1: &TMA, x1: R, q1: &TMA, o1: R, p2: &TMA, x2: R, q2: &TMA, o2: R, p3: &TMA, x3: R, q3: &TMA, o3: R)
+	requires dma_sum(&p1.dma, &p2.dma, &p3.dma), ema_sum(&p1.tma, &p2.tma, &p3.tma), x3@ == x1@ + x2@,
+		TMA::step(p1, &x1, q1, &o1), TMA::step(p2, &x2, q2, &o2), TMA::step(p3, &x3, q3, &o3)
+	ensures o3@ == o1@ + o2@, dma_sum(&q1.dma, &q2.dma, &q3.dma), ema_sum(&q1.tma, &q2.tma, &q3.tma)
+{
+	dma_plus_rel(&p1.dma, x1, &q1.dma, q1.dma.dma.value, &p2.dma, x2, &q2.dma, q2.dma.dma.value, &p3.dma, x3, &q3.dma, q3.dma.dma.value);
+	ema_plus_rel(&p1.tma, q1.dma.dma.value, &q1.tma, o1, &p2.tma, q2.dma.dma.value, &q2.tma, o2, &p3.tma, q3.dma.dma.value, &q3.tma, o3);
+}
+pub proof fn dema_plus_rel(p1: &DEMA, x1: R, q1: &DEMA, o1: R, p2: &DEMA, x2: R, q2: &DEMA, o2: R, p3: &DEMA, x3: R, q3: &DEMA, o3: R)
+	requires ema_sum(&p1.ema, &p2.ema, &p3.ema), ema_sum(&p1.dma, &p2.dma, &p3.dma), x3@ == x1@ + x2@,
+		DEMA::step(p1, &x1, q1, &o1), DEMA::step(p2, &x2, q2, &o2), DEMA::step(p3, &x3, q3, &o3)
+	ensures o3@ == o1@ + o2@, ema_sum(&q1.ema, &q2.ema, &q3.ema), ema_sum(&q1.dma, &q2.dma, &q3.dma)
+{
+	ema_plus_rel(&p1.ema, x1, &q1.ema, q1.ema.value, &p2.ema, x2, &q2.ema, q2.ema.value, &p3.ema, x3, &q3.ema, q3.ema.value);
+	ema_plus_rel(&p1.dma, q1.ema.value, &q1.dma, q1.dma.value, &p2.dma, q2.ema.value, &q2.dma, q2.dma.value, &p3.dma, q3.ema.value, &q3.dma, q3.dma.value);
+}
+pub proof fn tema_plus_rel(p1: &TEMA, x1: R, q1: &TEMA, o1: R, p2: &TEMA, x2: R, q2: &TEMA, o2: R, p3: &TEMA, x3: R, q3: &TEMA, o3: R)
+	requires ema_sum(&p1.ema, &p2.ema, &p3.ema), ema_sum(&p1.dma, &p2.dma, &p3.dma), ema_sum(&p1.tma, &p2.tma, &p3.tma), x3@ == x1@ + x2@,
+		TEMA::step(p1, &x1, q1, &o1), TEMA::step(p2, &x2, q2, &o2), TEMA::step(p3, &x3, q3, &o3)
+	ensures o3@ == o1@ + o2@, ema_sum(&q1.ema, &q2.ema, &q3.ema), ema_sum(&q1.dma, &q2.dma, &q3.dma), ema_sum(&q1.tma, &q2.tma, &q3.tma)
+{
+	ema_plus_rel(&p1.ema, x1, &q1.ema, q1.ema.value, &p2.ema, x2, &q2.ema, q2.ema.value, &p3.ema, x3, &q3.ema, q3.ema.value);
+	ema_plus_rel(&p1.dma, q1.ema.value, &q1.dma, q1.dma.value, &p2.dma, q2.ema.value, &q2.dma, q2.dma.value, &p3.dma, q3.ema.value, &q3.dma, q3.dma.value);
+	ema_plus_rel(&p1.tma, q1.dma.value, &q1.tma, q1.tma.value, &p2.tma, q2.dma.value, &q2.tma, q2.tma.value, &p3.tma, q3.dma.value, &q3.tma, q3.tma.value);
+}
+pub proof fn trima_plus_rel(p1: &TRIMA, x1: R, q1: &TRIMA, o1: R, p2: &TRIMA, x2: R, q2: &TRIMA, o2: R, p3: &TRIMA, x3: R, q3: &TRIMA, o3: R)
+	requires p1.inv(), p2.inv(), p3.inv(), sum_of(p3.sma1.window.view(), p1.sma1.window.view(), p2.sma1.window.view()),
+		sum_of(p3.sma2.window.view(), p1.sma2.window.view(), p2.sma2.window.view()), x3@ == x1@ + x2@,
+		TRIMA::step(p1, &x1, q1, &o1), TRIMA::step(p2, &x2, q2, &o2), TRIMA::step(p3, &x3, q3, &o3)
+	ensures o3@ == o1@ + o2@, sum_of(q3.sma1.window.view(), q1.sma1.window.view(), q2.sma1.window.view()),
+		sum_of(q3.sma2.window.view(), q1.sma2.window.view(), q2.sma2.window.view())
+{
+	lemma_sum_of_slide(p3.sma1.window.view(), p1.sma1.window.view(), p2.sma1.window.view(), x3, x1, x2);
+	sma_plus_img(q3.sma1.window.view(), q1.sma1.window.view(), q2.sma1.window.view());
+	lemma_sum_of_slide(p3.sma2.window.view(), p1.sma2.window.view(), p2.sma2.window.view(), q3.sma1.value, q1.sma1.value, q2.sma1.value);
+	sma_plus_img(q3.sma2.window.view(), q1.sma2.window.view(), q2.sma2.window.view());
+}
+pub proof fn hma_plus_rel(p1: &HMA, x1: R, q1: &HMA, o1: R, p2: &HMA, x2: R, q2: &HMA, o2: R, p3: &HMA, x3: R, q3: &HMA, o3: R)
+	requires p1.inv(), p2.inv(), p3.inv(), sum_of(p3.wma1.window.view(), p1.wma1.window.view(), p2.wma1.window.view()),
+		sum_of(p3.wma2.window.view(), p1.wma2.window.view(), p2.wma2.window.view()), sum_of(p3.wma3.window.view(), p1.wma3.window.view(), p2.wma3.window.view()),
+		x3@ == x1@ + x2@, HMA::step(p1, &x1, q1, &o1), HMA::step(p2, &x2, q2, &o2), HMA::step(p3, &x3, q3, &o3)
+	ensures o3@ == o1@ + o2@, sum_of(q3.wma1.window.view(), q1.wma1.window.view(), q2.wma1.window.view()),
+		sum_of(q3.wma2.window.view(), q1.wma2.window.view(), q2.wma2.window.view()), sum_of(q3.wma3.window.view(), q1.wma3.window.view(), q2.wma3.window.view())
+{
+	let (a1, a2, ad) = choose|w1: ValueType, w2: ValueType, d: ValueType| #[trigger] hma_parts(p1, &x1, q1, &o1, w1, w2, d);
+	let (b1, b2, bd) = choose|w1: ValueType, w2: ValueType, d: ValueType| #[trigger] hma_parts(p2, &x2, q2, &o2, w1, w2, d);
+	let (c1, c2, cd) = choose|w1: ValueType, w2: ValueType, d: ValueType| #[trigger] hma_parts(p3, &x3, q3, &o3, w1, w2, d);
+	lemma_sum_of_slide(p3.wma1.window.view(), p1.wma1.window.view(), p2.wma1.window.view(), x3, x1, x2);
+	wma_plus_img(q3.wma1.window.view(), q1.wma1.window.view(), q2.wma1.window.view());
+	lemma_sum_of_slide(p3.wma2.window.view(), p1.wma2.window.view(), p2.wma2.window.view(), x3, x1, x2);
+	wma_plus_img(q3.wma2.window.view(), q1.wma2.window.view(), q2.wma2.window.view());
+	lemma_sum_of_slide(p3.wma3.window.view(), p1.wma3.window.view(), p2.wma3.window.view(), cd, ad, bd);
+	wma_plus_img(q3.wma3.window.view(), q1.wma3.window.view(), q2.wma3.window.view());
+}
+
+// ==================================================================== impulse responses: the weight each definition gives to the input at position i
+// (0 = oldest element of the window), for every length
+pub open spec fn impulse(n: nat, i: int) -> Seq<R> { Seq::new(n, |j: int| mk(if j == i { 1real } else { 0real })) }
+pub open spec fn zeros(n: nat) -> Seq<R> { Seq::new(n, |j: int| mk(0real)) }
+pub proof fn lemma_sum_impulse(n: nat, i: int)
+	ensures sum(impulse(n, i)) == (if 0 <= i < n { 1real } else { 0real }), wsum(impulse(n, i)) == (if 0 <= i < n { (i + 1) as real } else { 0real })
+	decreases n
+{
+	if n > 0 {
+		lemma_sum_impulse((n - 1) as nat, i);
+		assert(impulse(n, i).drop_last() =~= impulse((n - 1) as nat, i));
+		let nr = n as real;
+		assert(nr * 1real == nr && nr * 0real == 0real) by(nonlinear_arith);
+	}
+}
+pub proof fn lemma_dsum_impulse(n: nat, i: int)
+	ensures dsum(impulse(n, i)) == (if 0 <= i < n { (n - i) as real } else { 0real })
+	decreases n
+{
+	if n > 0 {
+		lemma_dsum_impulse((n - 1) as nat, i - 1);
+		assert(impulse(n, i).drop_first() =~= impulse((n - 1) as nat, i - 1));
+		let nr = n as real;
+		assert(nr * 1real == nr && nr * 0real == 0real) by(nonlinear_arith);
+	}
+}
+// SMA: every input has weight 1/n
+pub proof fn sma_impulse(n: nat, i: int)
+	requires 0 <= i < n
+	ensures SMA::def(impulse(n, i)) == 1real / (n as real)
+{
+	lemma_sum_impulse(n, i);
+}
+// WMA: the input at position i (0 = oldest) has weight (i+1) / (n(n+1)/2): linearly increasing towards the newest
+pub proof fn wma_impulse(n: nat, i: int)
+	requires 0 <= i < n
+	ensures WMA::def(impulse(n, i)) == ((i + 1) as real) / (tri(n as int) as real), 2 * tri(n as int) == n * (n + 1)
+{
+	lemma_sum_impulse(n, i);
+	lemma_tri(n as int);
+}
+// SWMA: ascending weights 1..l over the older half, descending r..1 over the newer half (a triangle), normalised by their sum
+pub proof fn swma_impulse_left(l: nat, r: nat, i: int)
+	requires 0 <= i < l
+	ensures SWMA::def(impulse(l, i), zeros(r)) == ((i + 1) as real) / ((tri(l as int) + tri(r as int)) as real)
+{
+	lemma_sum_impulse(l, i);
+	lemma_dsum_impulse(r, -1);
+	assert(zeros(r) =~= impulse(r, -1));
+}
+pub proof fn swma_impulse_right(l: nat, r: nat, j: int)
+	requires 0 <= j < r
+	ensures SWMA::def(zeros(l), impulse(r, j)) == ((r - j) as real) / ((tri(l as int) + tri(r as int)) as real)
+{
+	lemma_sum_impulse(l, -1);
+	lemma_dsum_impulse(r, j);
+	assert(zeros(l) =~= impulse(l, -1));
+}
+// Conv: the input at position i has the caller's weight ws[i], normalised by the sum of the weights
+pub proof fn lemma_csum_impulse(ws: Seq<R>, i: int, m: int)
+	requires 0 <= m <= ws.len()
+	ensures csum_from(impulse(ws.len(), i), ws, m) == (if m <= i < ws.len() { ws[i]@ } else { 0real })
+	decreases ws.len() - m
+{
+	if m < ws.len() {
+		lemma_csum_impulse(ws, i, m + 1);
+		let k = ws[m]@;
+		assert(1real * k == k && 0real * k == 0real) by(nonlinear_arith);
+	}
+}
+pub proof fn conv_impulse(ws: Seq<R>, i: int)
+	requires 0 <= i < ws.len()
+	ensures Conv::def(impulse(ws.len(), i), ws) == ws[i]@ / sum(ws)
+{
+	lemma_csum_impulse(ws, i, 0);
+}
+// the EMA recurrence started at 0: an impulse gives alpha, and each later step multiplies by (1 - alpha)
+pub proof fn ema_impulse_step(p: &EMA, x: R, q: &EMA, o: R)
+	requires EMA::step(p, &x, q, &o)
+	ensures p.value@ == 0real && x@ == 1real ==> o@ == p.alpha@, x@ == 0real ==> o@ == (1real - p.alpha@) * p.value@
+{
+	let (al, v) = (p.alpha@, p.value@);
+	assert(v + al * (0real - v) == (1real - al) * v) by(nonlinear_arith);
+	assert(0real + al * (1real - 0real) == al) by(nonlinear_arith);
 }
 } // verus!
 fn main() {}
